@@ -29,6 +29,7 @@ typedef unsigned __int128 u128; typedef __int128 s128;
 u64 IR_MEM[IR_MEM_WORDS];
 #endif
 int ir_cur;
+u64 ir_sp[IR_NT];   /* per model thread: next free byte of its stack area (frames are allocated per activation) */
 /* sequentialised threads: remaining visible operations of the running slice, yield flag, blocked flags */
 unsigned ir_budget; _Bool ir_yielded; _Bool ir_blocked[IR_NT];
 #ifndef IR_STEP
@@ -39,9 +40,8 @@ unsigned ir_budget; _Bool ir_yielded; _Bool ir_blocked[IR_NT];
 #define IR_ASSERT(c, msg) __CPROVER_assert(c, msg)
 #define IR_ASSUME(c) __CPROVER_assume(c)
 #else
-void exit(int); int printf(const char *, ...);
-#define IR_ASSERT(c, msg) do { if (!(c)) { printf("ASSERT FAIL: %s\n", msg); printf("REPLAY: violation reproduced (model fault)\n"); exit(0); } } while (0)
-#define IR_ASSUME(c) do { if (!(c)) { printf("ASSUME FALSE in model (%s:%d)\n", __FILE__, __LINE__); exit(3); } } while (0)
+#define IR_ASSERT(c, msg) do { if (!(c)) { __builtin_printf("ASSERT FAIL: %s\n", msg); __builtin_printf("REPLAY: violation reproduced (model fault)\n"); __builtin_exit(0); } } while (0)
+#define IR_ASSUME(c) do { if (!(c)) { __builtin_printf("ASSUME FALSE in model (%s:%d)\n", __FILE__, __LINE__); __builtin_exit(3); } } while (0)
 #endif
 #ifndef IR_TRAP
 #define IR_TRAP() IR_ASSERT(0, "llvm.trap reached (DISPATCH_CLIENT_CRASH / DISPATCH_INTERNAL_CRASH / __builtin_trap)")
